@@ -3,8 +3,15 @@
 //
 // usage: h_cfloat exh <nbits> <es> <u8|u16|u32> <flags sub sup sat e.g. 110> <count> <opset>
 //        h_cfloat rnd <nbits> <es> <u8|u16|u32> <flags>                      <count> <opset>
-// opset: arith (add sub mul div) | order (cmp inc dec lim) | tonat (todbl toflt rtd rtf toll) |
-//        fromnat (fromd fromf fromi<w> fromu<w>) | all
+//        h_cfloat ld  <nbits> <es> <u8|u16|u32> <flags>                      <count> <opset>   (long double lines only:
+//                     configurations with es > 11 and / or more than 64 bits, instantiated in the UV_PART=0 unit)
+// opset: arith (add sub mul div) | order (cmp inc dec lim) | tonat (todbl toflt rtd rtf toll told rtld) |
+//        fromnat (fromd fromf fromld fromi<w> fromu<w>) | all
+// long double (x86-64, 64-bit significand) appears in the transcript as the virtual pattern sign | 15 exponent bits |
+// 63 fraction bits (the explicit integer bit is dropped; only valid operands are produced):
+//   fromld <pattern> => <encoding>      cfloat::operator=(long double)  (convert_ieee754<long double>)
+//   told <encoding> => <pattern | nan>  explicit operator long double() (to_native<long double>)
+//   rtld <encoding> => <encoding>       the round trip through long double
 //
 // line format:  cfloat <nbits> <es> <bt> <flags> <op> <in…> => <out…>
 //   encodings are the whole block storage (so a bit above nbits is visible), lower-case hex.
@@ -16,6 +23,7 @@
 #include <universal/number/cfloat/cfloat.hpp>
 #include <limits>
 #include <cmath>
+#include <cfloat>
 #include "proto.hpp"
 
 #ifndef UV_PART
@@ -32,14 +40,208 @@ template<> struct BtName<uint8_t>  { static const char* s() { return "u8"; } };
 template<> struct BtName<uint16_t> { static const char* s() { return "u16"; } };
 template<> struct BtName<uint32_t> { static const char* s() { return "u32"; } };
 
+// ---------------------------------------------------------------------------------------------- long double
+#if defined(__x86_64__) && __LDBL_MANT_DIG__ == 64 && LONG_DOUBLE_SUPPORT
+#define UV_LD80 1
+#else
+#define UV_LD80 0
+#endif
+typedef unsigned __int128 u128;
+#if UV_LD80
+static u128 ld2pat(long double x) {
+	unsigned char raw[16] = { 0 }; std::memcpy(raw, &x, 10);
+	uint64_t m; uint16_t se; std::memcpy(&m, raw, 8); std::memcpy(&se, raw + 8, 2);
+	return (u128(se) << 63) | u128(m & 0x7fffffffffffffffull);
+}
+static long double pat2ld(u128 p) {
+	uint16_t se = uint16_t(p >> 63); uint64_t m = uint64_t(p) & 0x7fffffffffffffffull;
+	if (se & 0x7fff) m |= 1ull << 63;      // integer bit of normals, infinities and NaNs
+	unsigned char raw[16] = { 0 }; std::memcpy(raw, &m, 8); std::memcpy(raw + 8, &se, 2);
+	long double x; std::memcpy(&x, raw, sizeof x); return x;
+}
+#endif
+static const char* hx(u128 v) {
+	static char buf[8][40]; static unsigned k; char* b = buf[k++ & 7];
+	uint64_t hi = uint64_t(v >> 64), lo = uint64_t(v);
+	if (hi) std::snprintf(b, 40, "%llx%016llx", (ull)hi, (ull)lo); else std::snprintf(b, 40, "%llx", (ull)lo);
+	return b;
+}
+
+// long double lines of one configuration; encodings are unsigned __int128 so that cfloat<80,15> is covered
+template<unsigned nbits, unsigned es, typename bt, bool sub, bool sup, bool sat>
+struct RunLD {
+	using C = cfloat<nbits, es, bt, sub, sup, sat>;
+	static constexpr unsigned fbits = nbits - 1 - es;
+	static constexpr unsigned bpb = 8 * sizeof(bt);
+	static constexpr int bias = (1 << (es - 1)) - 1;
+	static constexpr int minExpSub = 1 - bias - int(fbits);
+	static constexpr unsigned EMAX = (1u << es) - 1;
+	static char hdr[64];
+	static void init() { std::snprintf(hdr, sizeof hdr, "cfloat %u %u %s %d%d%d", nbits, es, BtName<bt>::s(), int(sub), int(sup), int(sat)); }
+	static u128 M() { return (u128(1) << nbits) - 1; }
+	static u128 FM() { return (u128(1) << fbits) - 1; }
+	static u128 enc(const C& c) { u128 v = 0; for (int b = int(C::nrBlocks) - 1; b >= 0; --b) v = (v << bpb) | u128(c.block(unsigned(b))); return v; }
+	static C mk(u128 e) { C c; for (unsigned i = 0; i < C::nrBlocks; ++i) c.setblock(i, bt(e >> (bpb * i))); return c; }
+#if UV_LD80
+	// exact value of a finite encoding, computed from the fields (NOT with to_native); ok = long double holds it exactly
+	static long double value(u128 e, bool& ok) {
+		u128 f = e & FM(); unsigned ex = unsigned((e >> fbits) & EMAX); bool neg = (e >> (nbits - 1)) & 1;
+		u128 sig; int sc;
+		if (ex == 0) { sig = sub ? f : 0; sc = minExpSub; }
+		else { sig = f | (u128(1) << fbits); sc = int(ex) - bias - int(fbits); }
+		ok = true;
+		if (sig == 0) return neg ? -0.0L : 0.0L;
+		while (!(sig & 1)) { sig >>= 1; ++sc; }
+		while (sig >> 64) { sig >>= 1; ++sc; ok = false; }
+		long double m = (long double)(uint64_t)sig, r = std::ldexp(m, sc);
+		if (r == 0 || std::ldexp(r, -sc) != m) ok = false;
+		return neg ? -r : r;
+	}
+	// the source whose conversion shifts by 64 (undefined: finding ub.cfloat.from_long_double.shift64) is left to the
+	// UBSan probe of h_ub.cpp in the sanitizer builds, which abort on the first report
+	static bool skip_ub(long double x) {
+#if defined(__SANITIZE_ADDRESS__)
+		return sub && fbits < 63 && std::isnormal(x) && std::ilogb(x) == minExpSub - 1;
+#else
+		(void)x; return false;
+#endif
+	}
+	static void fromld(long double x) {
+		if (skip_ub(x)) return;
+		C c; c.setbits(0x5a5a5a5a5a5a5a5aull); c = x;
+		std::printf("%s fromld %s => %s\n", hdr, hx(ld2pat(x)), hx(enc(c)));
+	}
+	static void around_ld(long double v) { fromld(v); fromld(std::nextafter(v, (long double)INFINITY)); fromld(std::nextafter(v, -(long double)INFINITY)); }
+	// sources generated from the target encoding e: its value, the midpoint to the next encoding, each +-1 long double ulp
+	// (2^-63 relative: invisible to any detour through double), 2 and 1024 ulps off the tie (bits 1 and 10 of the 64-bit
+	// significand: below binary64's 53 bits), eighths of the interval
+	static void conv_from_ld(u128 e) {
+		C c = mk(e);
+		if (c.isnan() || c.isinf()) return;
+		bool ok; long double v = value(e, ok);
+		around_ld(v);
+		u128 en = (e + 1) & M(); C n = mk(en);
+		if (!n.isnan() && !n.isinf() && (e & (M() >> 1)) != (M() >> 1)) {
+			bool okw; long double w = value(en, okw);
+			if (ok && okw && fbits < 63) {
+				long double mid = v / 2 + w / 2;
+				around_ld(mid);
+				long double am = std::fabs(mid), u = std::nextafter(am, (long double)INFINITY) - am;
+				for (long double k : { 2.0L, 1024.0L }) { fromld(mid + k * u); fromld(mid - k * u); }
+				if (fbits < 61) for (int k : { 3, 5, 7 }) fromld(v + (w - v) * k / 8);
+			}
+		}
+	}
+	static void native_ld(u128 e) {
+		C c = mk(e);
+		long double r = (long double)c;
+		if (r != r) std::printf("%s told %s => nan\n", hdr, hx(e)); else std::printf("%s told %s => %s\n", hdr, hx(e), hx(ld2pat(r)));
+		if (skip_ub(r)) return;
+		C back; back.setbits(0x5a5a5a5a5a5a5a5aull); back = r;
+		std::printf("%s rtld %s => %s\n", hdr, hx(e), hx(enc(back)));
+	}
+	static void conv_fixed_ld(uv::Rng& g, unsigned count) {
+		const long double DMAX = 1.7976931348623157e308L;
+		static const long double sl[] = { 0.0L, -0.0L, (long double)INFINITY, -(long double)INFINITY, 1.0L, -1.0L, 0.5L, 1.5L, 2.0L, 3.0L,
+			1.0L + 0x1p-63L, 1.0L + 0x1p-53L, 1.0L + 0x1p-52L + 0x1p-63L, 1.0L - 0x1p-64L, 1.5L + 0x1p-63L, -1.0L - 0x1p-63L, 1.0L + 0x1p-53L + 0x1p-63L, 1.0L + 0x1p-53L - 0x1p-63L,
+			LDBL_MAX, -LDBL_MAX, LDBL_MIN, -LDBL_MIN, 0x1p-16445L, -0x1p-16445L, LDBL_MIN - 0x1p-16445L, 0x1p-16383L, 0x1.8p-16382L, 0x1p16383L,
+			DMAX, DMAX * 2, DMAX + 0x1p969L, DMAX + 0x1p970L, 0x1p1024L, -0x1p1024L, 0x1p-1022L, 0x1p-1023L, 0x1p-1074L, 0x1p-1075L, 0x1.8p-1075L, 0x1p-1080L, 0x1.fffffffffffffffep-1075L,
+			65504.0L, 65520.0L, 65520.0L - 0x1p-47L, 65520.0L + 0x1p-47L, 65536.0L, 3.40282347e38L, 1e-40L, 1e40L, 1e-4000L, 1e4000L, 0.1L, -0.1L };
+		for (long double x : sl) fromld(x);
+		// NaN payloads: quiet bit (62) set / clear, one payload bit in each region of the 63-bit fraction, all ones, both signs
+		for (uint64_t p : { 1ull << 62, (1ull << 62) | 1, 1ull << 61, 1ull, 1ull << 10, 1ull << 11, 1ull << 32, 1ull << 50, 1ull << 51, 1ull << 52, (1ull << 61) | (1ull << 60),
+		                    (1ull << 62) | (1ull << 61), 0x7fffffffffffffffull, 0x3fffffffffffffffull, 0x7ff8000000000000ull, 0x7ff4000000000000ull, 0x7ffc000000000000ull })
+			for (unsigned sg : { 0u, 1u }) fromld(pat2ld((u128(sg) << 78) | (u128(0x7fff) << 63) | p));
+		{	// the overflow cusp: maxpos, maxpos + ulp/2 (the first value that must give inf / saturate) each +-1 long double ulp and a
+			// few ulps more, the top of the binade of MAX_EXP, the first powers of two beyond it; both signs
+			C mp(SpecificValue::maxpos); u128 em = enc(mp);
+			bool o1, o2; long double vm = value(em, o1), vb = value(em - 1, o2);
+			if (vm == vm && vb == vb && !std::isinf(vm)) {
+				long double cusp = vm + (vm - vb) / 2, top = std::ldexp(1.0L, std::ilogb(vm) + 1);
+				for (long double q : { vm, cusp, top, 2 * top, vm + (vm - vb), vm + 2 * (vm - vb), vm + 3 * (vm - vb) }) if (!std::isinf(q)) { around_ld(q); around_ld(-q); }
+				long double u = std::nextafter(cusp, (long double)INFINITY) - cusp;
+				if (!std::isinf(cusp)) for (long double k : { 2.0L, 1024.0L, 3072.0L }) { fromld(cusp + k * u); fromld(cusp - k * u); fromld(-cusp - k * u); fromld(-cusp + k * u); }
+			}
+			// the underflow cusp and the bottom of the lattice
+			const u128 S = u128(1) << (nbits - 1);
+			for (u128 q : { u128(0), u128(1), u128(2), u128(3), FM() - 1, FM(), FM() + 1, FM() + 2 }) { conv_from_ld(q); conv_from_ld(S | q); }
+			conv_from_ld(em - 1); conv_from_ld(em); conv_from_ld(S | em);
+		}
+		const int span = (1 << (es - 1)) + int(fbits) + 4;
+		for (unsigned i = 0; i < count; ++i) {
+			u128 p = ((u128(g.next()) << 64) | g.next()) & ((u128(1) << 79) - 1);
+			fromld(pat2ld(p));
+			int ex = int(g.below(2 * uint64_t(span) + 8)) - span - 4;
+			uint64_t fr = g.next() & 0x7fffffffffffffffull;
+			if (g.coin()) fr &= ~uv::mask(unsigned(g.below(64))); else if (g.below(4) == 0) fr |= uv::mask(unsigned(g.below(63)));
+			u128 sg = g.coin() ? u128(1) << 78 : 0;
+			if (ex + 16383 >= 1 && ex + 16383 <= 0x7ffe) fromld(pat2ld(sg | (u128(ex + 16383) << 63) | fr));
+			if (g.below(8) == 0) fromld(pat2ld(sg | (fr >> g.below(63))));      // subnormal long double
+		}
+	}
+	// structured encodings for the configurations that only have long double lines
+	static u128 operand(uv::Rng& g) {
+		static const int rel[] = { 0, 1, -1, 2, 62, 63, 64, 65, -62, -63, -64, -65, 1022, 1023, 1024, 1025, -1021, -1022, -1023, -1024, -1073, -1074, -1075, -1076, 16382, 16383, -16381, -16382 };
+		u128 ef;
+		switch (g.below(8)) {
+		case 0: ef = g.below(3); break;
+		case 1: ef = EMAX - g.below(3); break;
+		case 2: case 3: case 4: { long long x = (long long)bias + rel[g.below(sizeof rel / sizeof rel[0])]; if (x < 0) x = 0; if (x > (long long)EMAX) x = EMAX; ef = (u128)x; break; }
+		case 5: ef = (u128)(bias + (int)g.below(129) - 64) & EMAX; break;
+		default: ef = g.below(uint64_t(EMAX) + 1);
+		}
+		u128 r = ((u128(g.next()) << 64) | g.next()) & FM(), ff;
+		switch (g.below(10)) {
+		case 0: ff = 0; break;
+		case 1: ff = 1; break;
+		case 2: ff = FM(); break;
+		case 3: ff = FM() - 1; break;
+		case 4: ff = u128(1) << (fbits - 1); break;
+		case 5: ff = (r >> g.below(fbits + 1)) << 0; ff = r & ~((u128(1) << g.below(fbits + 1)) - 1); break;   // few leading bits
+		case 6: ff = r & ((u128(1) << g.below(fbits + 1)) - 1); break;                                    // few trailing bits
+		case 7: ff = r | ((u128(1) << g.below(fbits + 1)) - 1); break;                                    // trailing ones
+		case 8: ff = FM() - g.below(4); break;
+		default: ff = r;
+		}
+		if (g.below(12) == 0) {   // one storage limb of the inf / NaN pattern replaced: the limb-wise isinf / isnan tests
+			constexpr unsigned nl = (nbits + bpb - 1) / bpb;
+			u128 v = (M() >> 1) & ~u128(g.coin() ? 1 : 0); unsigned k = (unsigned)g.below(nl);
+			u128 m = ((u128(1) << bpb) - 1) << (bpb * k); v = (v & ~m) | ((u128(g.next()) << (bpb * k)) & m);
+			return (v & (M() >> 1)) | (g.coin() ? u128(1) << (nbits - 1) : 0);
+		}
+		return (g.coin() ? u128(1) << (nbits - 1) : 0) | (ef << fbits) | (ff & FM());
+	}
+	static void random(ull count) {
+		uv::Rng g(uv::seed_from_env() * 1000003ull + nbits * 131ull + es * 7 + sub + 2 * sup + 4 * sat + 977);
+		if (g_fromnat) conv_fixed_ld(g, (unsigned)(count / 8 + 50));
+		const u128 S = u128(1) << (nbits - 1);
+		for (u128 q : { u128(0), u128(1), u128(2), FM() - 1, FM(), FM() + 1, M() >> 1, (M() >> 1) - 1, (M() >> 1) - 2, (M() >> 1) - FM(), (M() >> 1) - FM() - 1 })
+			for (u128 sg : { u128(0), S }) { if (g_tonat) native_ld(sg | q); if (g_fromnat) conv_from_ld(sg | q); }
+		for (ull i = 0; i < count; ++i) {
+			u128 e = operand(g);
+			if (g_tonat) native_ld(e);
+			if (g_fromnat && (i & 1) == 0) conv_from_ld(e);
+		}
+	}
+#else
+	static void fromld(long double) {}
+	static void conv_from_ld(u128) {}
+	static void native_ld(u128) {}
+	static void conv_fixed_ld(uv::Rng&, unsigned) {}
+	static void random(ull) {}
+#endif
+};
+template<unsigned nbits, unsigned es, typename bt, bool sub, bool sup, bool sat> char RunLD<nbits, es, bt, sub, sup, sat>::hdr[64];
+
 template<unsigned nbits, unsigned es, typename bt, bool sub, bool sup, bool sat>
 struct Run {
 	using C = cfloat<nbits, es, bt, sub, sup, sat>;
 	static constexpr unsigned fbits = nbits - 1 - es;
 	static constexpr bool isSingle = (nbits == 32 && es == 8 && sub && !sup && !sat);
 	static constexpr bool isDouble = (nbits == 64 && es == 11 && sub && !sup && !sat);
+	using LD = RunLD<nbits, es, bt, sub, sup, sat>;
 	static char hdr[64];
-	static void init() { std::snprintf(hdr, sizeof hdr, "cfloat %u %u %s %d%d%d", nbits, es, BtName<bt>::s(), int(sub), int(sup), int(sat)); }
+	static void init() { std::snprintf(hdr, sizeof hdr, "cfloat %u %u %s %d%d%d", nbits, es, BtName<bt>::s(), int(sub), int(sup), int(sat)); LD::init(); }
 
 	// whole storage, most significant block first
 	static ull enc(const C& c) {
@@ -121,6 +323,7 @@ struct Run {
 				std::printf("%s toint %llx => %llx\n", hdr, a, (ull)(unsigned)int(ca));
 				std::printf("%s toll %llx => %llx\n", hdr, a, (ull)(long long)(ca));
 			}
+			LD::native_ld(a);       // told / rtld
 		}
 	}
 	static void limits() {
@@ -177,6 +380,7 @@ struct Run {
 			// eighths of the interval: discarded bits .011 / .101 / .111 (the bit below the round bit decides, nothing else set)
 			if (fbits < 50) for (int k : { 3, 5, 7 }) { double q = v + (w - v) * k / 8; fromd(q); if (q == std::floor(q)) around_i(q); }
 		}
+		LD::conv_from_ld(e);       // long double sources
 	}
 	static void conv_fixed(uv::Rng& g, unsigned count) {
 		if (!g_fromnat) return;
@@ -208,6 +412,7 @@ struct Run {
 		}
 		static const ull su[] = { 0, 1, 2, 3, 255, 256, 65535, 65536, 4294967295ull, 4294967296ull, 9007199254740993ull, 9223372036854775807ull, 9223372036854775808ull, 9223372036854775809ull, 18446744073709551615ull };
 		for (ull v : su) fromu(v);
+		LD::conv_fixed_ld(g, count);
 		for (unsigned i = 0; i < count; ++i) {
 			// random bit patterns per source type; exponents concentrated around the target's range
 			ull r = g.next();
@@ -373,6 +578,9 @@ template<unsigned nbits, unsigned es, typename bt, bool sub, bool sup, bool sat>
 	X(32,8,uint8_t,1,0,0) X(26,6,uint8_t,1,1,0) X(64,11,uint16_t,1,0,0) X(48,8,uint16_t,1,0,0) \
 	X(40,8,uint8_t,1,0,0) X(40,8,uint16_t,1,0,0) X(33,8,uint8_t,1,0,0) X(33,8,uint16_t,1,0,0) X(33,8,uint32_t,1,0,0) X(32,8,uint16_t,1,0,0)
 
+// long double lines only: es > 11 (beyond binary64's exponent range) and 80-bit configurations (fbits >= 63)
+#define LDCFG(X) X(80,15,uint16_t,1,0,0) X(80,15,uint32_t,1,1,1) X(80,15,uint8_t,0,1,0) X(64,15,uint32_t,1,0,0) X(48,12,uint16_t,1,1,0) X(80,11,uint8_t,1,0,0)
+
 #if UV_PART == 8
 #define CONFIGS(X) SMALL(X, uint8_t)
 #elif UV_PART == 16
@@ -402,8 +610,14 @@ int main(int argc, char** argv) {
 	g_fromnat = ops == "all" || ops == "fromnat";
 #define X(N,E,BT,SUB,SUP,SAT) if (n == N && e == E && bb == sizeof(BT) * 8 && fsub == bool(SUB) && fsup == bool(SUP) && fsat == bool(SAT)) { \
 		using R = Run<N,E,BT,bool(SUB),bool(SUP),bool(SAT)>; R::init(); if (mode == "exh") R::exhaustive(); else R::random(count); return 0; }
-	CONFIGS(X)
+	if (mode != "ld") { CONFIGS(X) }
 #undef X
+#if UV_PART == 0
+#define X(N,E,BT,SUB,SUP,SAT) if (mode == "ld" && n == N && e == E && bb == sizeof(BT) * 8 && fsub == bool(SUB) && fsup == bool(SUP) && fsat == bool(SAT)) { \
+		using R = RunLD<N,E,BT,bool(SUB),bool(SUP),bool(SAT)>; R::init(); R::random(count); return 0; }
+	LDCFG(X)
+#undef X
+#endif
 	std::fprintf(stderr, "unsupported configuration %u %u %s %s in part %d\n", n, e, argv[4], fl.c_str(), UV_PART);
 	return 2;
 }
